@@ -988,7 +988,11 @@ class SortBy:
             # if not multsort - i is 0, and the 0th element is the key
             c1, c2 = o1[i], o2[i]
             func, multiplier = sf_list[i][1:3]
-            n = func(c1, c2)
+            if c1 is _Smallest or c2 is _Smallest:
+                # missing keys sort first, whatever the function expects
+                n = (c2 is _Smallest) - (c1 is _Smallest)
+            else:
+                n = func(c1, c2)
             if n:
                 return n * multiplier
 
